@@ -25,6 +25,9 @@ OPS = {
     'rmm03': 'internal::rep_min_max< 0, 3, R<0> >',
     'rmm22': 'internal::rep_min_max< 2, 2, R<0> >',
     'ite': 'internal::if_then_else< R<0>, R<1>, R<2> >',
+    'rematch1': 'internal::rematch< R<0> >',
+    'rematch2': 'internal::rematch< R<0>, R<1> >',
+    'rematch3': 'internal::rematch< R<0>, R<1>, R<2> >',
     'strict': 'internal::strict< R<0>, R<1> >',
     'starstrict': 'internal::star_strict< R<0>, R<1> >',
 }
@@ -122,6 +125,44 @@ def spec_for(op, a, m, tq):
         post = [E('!vf_exc.pending ==> (g_called[0] && RET == (g_ok[0] ? (g_called[1] && g_ok[1]) : (g_called[2] && g_ok[2])))', 'ITE-IS-SOR-SEQ-C-T-SEQ-NOTAT-C-E', P),
                 E('(!vf_exc.pending && RET) ==> CONSUMED(in) == (g_ok[0] ? g_len[0] + g_len[1] : g_len[2])', 'ITE-CONSUMED', P)]
         return rule_stub(spec), post, {}, {}
+    if op.startswith('rematch'):
+        n = int(op[7:]) - 1          # number of rules re-matched on the head's match
+        spec = {0: dict(A=A_, next_ok='1' if n else 'T_NONE', next_fail='T_NONE')}
+        head = rule_stub(spec)
+
+        def mk(fi, n=n):
+            ps = parse_stub(fi)
+            if ps is None:
+                return None
+            i, sa, sm = ps
+            if i == 0:
+                return head(fi)
+            if i > n:
+                return Contract(R('0', 'stub-unexpected-subrule', P), A('IT_FIELDS(in)'))
+            c = Contract()
+            sub = ('__CPROVER_r_ok(in, sizeof(*(in))) && EXC_OK && g_turn == %d && g_done == 0 && __CPROVER_same_object(IN_BEGIN(in), g_buf) && OFF(IN_BEGIN(in)) == g_e_off'
+                   ' && __CPROVER_same_object(IN_END(in), g_buf) && OFF(IN_END(in)) == g_e_off + g_len[0] && __CPROVER_same_object(CUR(in), g_buf) && OFF(CUR(in)) == g_e_off && OFF(g_buf) == 0' % i)
+            c.add(R(sub, 'rematch-subrule-sees-exactly-the-bytes-the-head-matched-from-their-start', P))
+            c.add(R('REMATCH_SUB_COUNTERS(in)', 'rematch-subinput-positions-continue-the-outer-input', ('C06',)))
+            c.add(R('%d == %s' % (sa, A_), 'stub-apply-mode', ('C04', 'C09')))
+            c.add(A('IT_FIELDS(in), g_turn, g_last, g_called[%d], g_ok[%d], g_len[%d], g_ncalls[%d], g_ae[%d], g_re[%d], g_lp[%d], vf_exc, vf_exc_counter, g_exc_obj, g_exc_type' % ((i,) * 7)))
+            c.add(E('__CPROVER_pointer_in_range_dfcc(IN_BEGIN(in), CUR(in), IN_END(in))', 'stub'))
+            c.add(E('BOOL01(RET) && BOOL01(g_ok[%d]) && BOOL01(vf_exc.pending) && IN_END(in)==OLD(IN_END(in)) && IN_BEGIN(in)==OLD(IN_BEGIN(in)) && CNT_POS(in) && CNT_LT63(in)' % i, 'stub'))
+            c.add(E('g_called[%d] == 1 && g_ncalls[%d] == SATINC(OLD(g_ncalls[%d])) && g_last == %d' % (i, i, i, i), 'stub'))
+            c.add(E('vf_exc.pending ==> (g_turn == T_NONE && vf_exc.obj == g_exc_obj && vf_exc.type == g_exc_type && g_exc_obj != 0'
+                    ' && vf_exc.obj == OLD(vf_exc_counter) + 1 && vf_exc_counter == vf_exc.obj && vf_exc.nested_obj == 0)', 'stub'))
+            c.add(E('!vf_exc.pending ==> (g_exc_obj == OLD(g_exc_obj) && g_exc_type == OLD(g_exc_type) && vf_exc_counter == OLD(vf_exc_counter))', 'stub'))
+            c.add(E('!vf_exc.pending ==> (RET == g_ok[%d] && g_turn == (g_ok[%d] ? %s : T_NONE) && g_len[%d] == OFF(CUR(in)) - g_e_off)' % (i, i, str(i + 1) if i < n else 'T_NONE', i), 'stub'))
+            c.add(E('g_ae[%d] == 1 && g_re[%d] == OLD(g_re[%d]) && g_lp[%d] == g_e_off' % ((i,) * 4), 'stub'))
+            return c
+        allok = ' && '.join(['g_ok[0]'] + ['(g_called[%d] && g_ok[%d])' % (j, j) for j in range(1, n + 1)])
+        post = [E('!vf_exc.pending ==> (g_called[0] && RET == (%s))' % allok, 'REMATCH-IS-HEAD-THEN-EVERY-RULE-ON-THE-HEADS-MATCH', P),
+                E('(!vf_exc.pending && RET) ==> CONSUMED(in) == g_len[0]', 'REMATCH-CONSUMES-EXACTLY-THE-HEADS-MATCH', P)]
+        if n:
+            post.append(E('(!vf_exc.pending && !RET) ==> ITER_UNCHANGED(in)', 'REMATCH-RESTORES-THE-CURSOR-ON-FAILURE-WHATEVER-THE-MODE', ('C09', 'C02')))
+        for j in range(1, n + 1):
+            post.append(E('g_called[%d] ==> (%s)' % (j, ' && '.join(['g_ok[0]'] + ['g_ok[%d]' % q for q in range(1, j)])), 'REMATCH-RULE-ONLY-AFTER-ITS-PREDECESSORS-MATCHED', P))
+        return mk, post, {}, {}
     if op == 'strict':
         spec = {0: dict(A=A_, M='0', next_ok='1', next_fail='T_NONE', pos_fail='same'),
                 1: dict(A=A_, next_ok='T_NONE', next_fail='T_NONE')}
@@ -141,7 +182,13 @@ def spec_for(op, a, m, tq):
 
 # documented number of calls of the body for the counted repetitions (rep_min_max: Max calls and the not_at lookahead)
 BOUND = {'rep3': 3, 'rep1': 1, 'rep42': 42, 'repopt3': 3, 'repopt1': 1, 'rmm13': 4, 'rmm03': 4, 'rmm22': 3}
-NSUB = {'until1': 1, 'until2': 2, 'ite': 3, 'strict': 2, 'starstrict': 2}
+NSUB = {'until1': 1, 'until2': 2, 'ite': 3, 'strict': 2, 'starstrict': 2, 'rematch1': 1, 'rematch2': 2, 'rematch3': 3}
+
+
+# the sub-input of rematch must report the positions of the outer input: eager = the entry iterator's counters; lazy = a begin
+# iterator whose byte offset continues the outer input's (g_ob_byte = byte of the outer begin iterator)
+REMATCH_PRE = {'eager': '#define REMATCH_SUB_COUNTERS(in) (BYTE(in) == g_e_byte && LINE(in) == g_e_line && COL(in) == g_e_col)\nsize_t g_ob_byte;\n',
+               'lazy': '#define REMATCH_SUB_COUNTERS(in) (INB(in).m_begin.byte == g_ob_byte + g_e_off)\nsize_t g_ob_byte;\n'}
 
 
 def jobs(tier):
@@ -166,9 +213,10 @@ def jobs(tier):
         stubs = [(r'^bool vf::R<\d+>::match<', stub)]
         if op == 'until1':
             stubs += g_pos.pos_stubs()
-        j = Job(rname(op, a, m, tr), NAME, rname(op, a, m, tr), con, ('C09', 'C02', 'C05', 'C11'), stubs=stubs, loops=loops,
-                prelude=comb_prelude(tr) + g_pos.PRE_STUB,
-                harness=comb_harness('vf_' + INPUT_TYPES[(tr, 'lf_crlf')], tr, 'w_ret = $ENTRY(&in)'),
+        j = Job(rname(op, a, m, tr), NAME, rname(op, a, m, tr), con, ('C09', 'C02', 'C05', 'C11') + (('C06',) if op.startswith('rematch') else ()), stubs=stubs, loops=loops,
+                prelude=comb_prelude(tr) + g_pos.PRE_STUB + REMATCH_PRE[tr],
+                harness=comb_harness('vf_' + INPUT_TYPES[(tr, 'lf_crlf')], tr, 'w_ret = $ENTRY(&in)').replace(
+                    '  SET_ENTRY(&in);', '  SET_ENTRY(&in);' + (' g_ob_byte = in._b0.m_begin.byte;' if tr == 'lazy' else ' g_ob_byte = 0;')),
                 expect_fail_canary=('canary_exit',),
                 desc='%s apply_mode=%s rewind_mode=%s on memory_input<%s>, sub-rules = oracle stubs' % (
                     OPS[op], 'action' if a else 'nothing', 'optional' if m else 'required', tr))
